@@ -327,6 +327,7 @@ class Run:
         qn = self.qname(h, cfg)
         mem = cfg.get('_mem_gb', h.get('mem_gb', 4 if self.tier == 'quick' else 12))
         tmo = cfg.get('_timeout', h.get('timeout', 600 if self.tier == 'quick' else 1800))
+        if os.environ.get('NMV_TIMEOUT_CAP'): tmo = min(tmo, int(os.environ['NMV_TIMEOUT_CAP']))   # diagnostic runs: cap every query (structural errors show up at once, the rest is NO-VERDICT)
         cmd, backend = self.cbmc_cmd(h, cfg, extra_defs)
         self.acquire_mem(mem)
         try:
